@@ -14,9 +14,9 @@ PIN2 = "INVARIANTS TypeOK Fixpoint\nPROPERTIES LivelockOnlyWhenPatched\n"
 
 
 def cfg(name, cls, items, fills, absw, orgs, labels='{"la", "lb"}', fixed="TRUE", tail=SAFE, throw="FALSE",
-        extra="TRUE", ill="FALSE", offs="{1}", head="", spec=None, complete="FALSE", tmax=3):
+        extra="TRUE", ill="FALSE", offs="{1}", head="", spec=None, complete="FALSE", tmax=3, selfk="{}"):
     c = dict(CLS[cls])
-    c.update(Labels=labels, MaxItems=items, Fills=fills, AbsWidths=absw, EquOffs=offs, Orgs=orgs, Fixed=fixed,
+    c.update(SelfKinds=selfk, Labels=labels, MaxItems=items, Fills=fills, AbsWidths=absw, EquOffs=offs, Orgs=orgs, Fixed=fixed,
              ThrowErrors=throw, ThrowMaxPass=tmax, WithExtra=extra, AllowIllFormed=ill, Complete=complete)
     with open(os.path.join(SPEC, name), "w") as f:
         f.write("\\* %s\n" % head if head else "")
@@ -49,14 +49,25 @@ cfg("PassLoop_Gen_abs.cfg", "abs", 4, "{1, 126}", "{2}", "{0, 250}", tail=GTAIL,
     head="(M)+(G) 6809/68HC11/6502 class, every program <= 4 items: check and export")
 cfg("PassLoop_Gen_86.cfg", "86", 4, "{1, 125, 126}", "{2}", "{0}", tail=GTAIL, spec=GEN,
     head="(M)+(G) 8086 class, every program <= 4 items: check and export")
+ALLSELF = '{"labs", "lvar", "lrel"}'
+# statements that are label, padding trigger and reference at once (lab: dc.w lab / dc.w * / tab: dc.w r0-tab /
+# lab: bra lab): every program <= 3 items over a small base alphabet, checked and exported like the others
+cfg("PassLoop_Gen_self68k.cfg", "68k", 3, "{1}", "{2}", "{0}", offs="{}", selfk=ALLSELF, tail=GTAIL, spec=GEN,
+    head="(M)+(G) 68000/MSP430 class with self-referencing padded statements, every program <= 3 items")
+cfg("PassLoop_Gen_selfabs.cfg", "abs", 3, "{1}", "{2}", "{0, 250}", offs="{}", selfk=ALLSELF, tail=GTAIL, spec=GEN,
+    head="(M)+(G) 6809/68HC11/6502 class with self-referencing statements, every program <= 3 items")
+cfg("PassLoop_Gen_self86.cfg", "86", 3, "{1}", "{2}", "{0}", offs="{}", selfk=ALLSELF, tail=GTAIL, spec=GEN,
+    head="(M)+(G) 8086 class with self-referencing statements, every program <= 3 items")
+cfg("PassLoop_MC_self68k_pinned.cfg", "68k", 3, "{1}", "{2}", "{0}", offs="{}", selfk=ALLSELF, fixed="FALSE", tail=PIN2,
+    head="pinned SymbolAdder with self-referencing statements: livelock only with a patched label")
 for c, fills, absw, orgs in (("68k", "{1, 2, 3, 4, 118}", "{2, 4}", "{0, 1}"), ("abs", "{1, 2, 3, 4, 120}", "{2}", "{0, 250}"),
                              ("86", "{1, 2, 3, 4, 119}", "{2}", "{0}")):
-    cfg("PassLoop_Sim_%s.cfg" % c, c, 12, fills, absw, orgs, labels='{"la", "lb", "lc"}', offs="{2}", complete="TRUE",
+    cfg("PassLoop_Sim_%s.cfg" % c, c, 12, fills, absw, orgs, labels='{"la", "lb", "lc"}', offs="{2}", complete="TRUE", selfk='{"labs", "lvar", "lrel"}',
         tail="INVARIANTS TypeOK Fixpoint ExtraPassIsStutter\nACTION_CONSTRAINT OnDone\n", spec="INIT GInit\nNEXT GNext\n",
         head="simulation: %s class, programs <= 12 items (+ closing definitions), 3 labels" % c)
 for c in CLS:
     d = dict(CLS[c]); d.pop("RelFpuOK")
-    d.update(Labels='{"la", "lb", "lc"}', Fills="{}", AbsWidths="{2, 4}", EquOffs="{}")
+    d.update(Labels='{"la", "lb", "lc"}', Fills="{}", AbsWidths="{2, 4}", EquOffs="{}", SelfKinds="{}")
     with open(os.path.join(SPEC, "PassLoop_Obs_%s.cfg" % c), "w") as f:
         f.write("\\* verdict on decoded layouts, %s class\nCONSTANTS\n" % c + "".join("  %s = %s\n" % kv for kv in d.items()))
         f.write("INIT OInit\nNEXT ONext\nPOSTCONDITION Accepted\nCHECK_DEADLOCK FALSE\n")
